@@ -1019,6 +1019,7 @@ fn run_adapters(prop: &'static str, seed: u64, iters: usize) {
                 }
                 _ => {
                     let polls_before = ust.polls.get();
+                    let wakes_before = tw.0.load(Ordering::SeqCst);
                     let r = s.as_mut().poll_next(&mut cx);
                     let cs = ust.children.borrow();
                     let in_flight = cs.iter().filter(|c| c.dropped.get() == 0).count();
@@ -1056,6 +1057,12 @@ fn run_adapters(prop: &'static str, seed: u64, iters: usize) {
                             }
                             if ust.ended.get() && undelivered == 0 {
                                 fail(&["C10"], &hist, "Pending although upstream is exhausted and nothing is in flight".into());
+                            }
+                            if tw.0.load(Ordering::SeqCst) == wakes_before {
+                                let missed: Vec<usize> = cs.iter().enumerate().filter(|(_, c)| !c.up_err.get() && c.dropped.get() == 0 && !c.done.get() && (c.polls.get() == 0 || c.woken_since_poll.get())).map(|(i, _)| i).collect();
+                                if !missed.is_empty() {
+                                    fail(&["C01"], &hist, format!("Pending with jobs {:?} pulled/woken but not polled and the task waker not invoked", missed));
+                                }
                             }
                         }
                     }
@@ -2016,6 +2023,7 @@ fn main() {
             run_budget(prop);
             run_collections(prop, seed, iters);
             run_merge(prop, seed, iters / 2);
+            run_adapters(prop, seed, iters / 2);
         }
         "C08" => {
             run_collections(prop, seed, iters);
